@@ -3,7 +3,8 @@
    mapped to their OCaml counterparts; nat stays the unary datatype).
    Run from this directory: coqc -Q ../coq CffVerif Extract.v *)
 From Coq Require Import Extraction ExtrOcamlBasic.
-From CffVerif Require Import BuildTagModel.
+From CffVerif Require Import BuildTagModel SchedModel.
 
 Extraction Language OCaml.
-Extraction "cffmodel.ml" invert eval flip_cff has_cff gen_filename splice.
+Extraction "cffmodel.ml" invert eval flip_cff has_cff gen_filename splice
+  init step run replay is_final wf_cfg_b event_eqb.
